@@ -309,12 +309,12 @@ func main() {
 	for i, n := 0, f.N(400, 6000); i < n; i++ {
 		romCase(w, r)
 	}
-	for i, n := 0, f.N(60, 800); i < n; i++ {
+	for i, n := 0, f.N(60, 500); i < n; i++ {
 		findoffCase(w, r)
 	}
 	// end to end
 	files := 0
-	for i, n := 0, f.N(120, 1500); i < n; i++ {
+	for i, n := 0, f.N(120, 1000); i < n; i++ {
 		docs := e2lib.GenCorpus(r)
 		for k := 0; k < 6; k++ {
 			q, class := e2lib.GenQuery(r, docs)
